@@ -58,9 +58,20 @@ def exc (e : Err) : Json := Json.str e.name
 def parseBins (j : Json) : Option (Option (NArr Int)) :=
   if j.isNull then some none else (parseNArr j).map some
 
+mutual
+/-- cells that differ between two arrays of the same shape: (index, new content) -/
+partial def diffN (pre : List Nat) : NArr Int → NArr Int → List (List Nat × Int)
+  | .leaf a, .leaf b => if a != b then [(pre.reverse, b)] else []
+  | .node xs, .node ys => diffL pre 0 xs ys
+  | _, _ => [(pre.reverse, -1)]
+partial def diffL (pre : List Nat) (k : Nat) : List (NArr Int) → List (NArr Int) → List (List Nat × Int)
+  | x :: xs, y :: ys => diffN (k :: pre) x y ++ diffL pre (k + 1) xs ys
+  | [], [] => []
+  | _, _ => [(pre.reverse, -1)]
+end
+
 def diffCells (a b : NArr Int) : Json :=
-  let ch := (List.zip (NArr.cells a) (NArr.cells b)).filter (fun p => p.1.2 != p.2.2 || p.1.1 != p.2.1)
-  ofList (fun p => Json.arr #[ofList ofNat p.2.1, ofInt p.2.2]) ch
+  ofList (fun (p : List Nat × Int) => Json.arr #[ofList ofNat p.1, ofInt p.2]) (diffN [] a b)
 
 def idxJson : Except Err (List Int) → Json
   | .ok l => ofIntList l
